@@ -22,7 +22,7 @@ META = {
 
 def main(argv):
     c = vcheck.Check("C07", argv)
-    mirrorlib.mirror_check(c, "C07", ["c07", "c06"], "C07 validator sets", extra=["-crashes"], templates=[8])  # c06: the available power every view counts against is that of its own set
+    mirrorlib.mirror_check(c, "C07", ["c07", "c06"], "C07 validator sets", extra=["-crashes"], templates=[8, 12])  # c06: the available power every view counts against is that of its own set
     # the state-machine half of C07: the set the state machine uses at height h is what the driver returned when finalizing h-2,
     # also across restarts on the same stores (model walk with changing sets + the scripted histories of Model/SMScenarios.v);
     # monitor Monitors/SMm.c07_sm_valset on the real tmstate.StateMachine's observations
